@@ -1,7 +1,4 @@
 impl BytesMut {
-    pub uninterp spec fn spec_capacity(&self) -> usize;
-    #[verifier::external_body]
-    pub fn capacity(&self) -> (r: usize) ensures r == self.spec_capacity() { self.v.capacity() }
     #[verifier::external_body]
     pub fn put_u16(&mut self, n: u16) ensures final(self)@ == old(self)@ + seq![(n >> 8) as u8, (n & 0xff) as u8] { self.v.extend_from_slice(&n.to_be_bytes()) }
     #[verifier::external_body]
